@@ -72,14 +72,20 @@ class HTTPConnection(ConnectionInterface):
                 f"Attempted to send request to {request.url.origin} on connection to {self._origin}"
             )
 
-        with self._request_lock:
-            if self._connection is None:
-                if self._connect_failed:
-                    # Another request failed to establish this connection while we
-                    # were waiting, and the pool has dropped it.
-                    raise ConnectionNotAvailable()
-                try:
+        try:
+            with self._request_lock:
+                if self._connection is None:
+                    if self._connect_failed:
+                        # Another request failed to establish this connection
+                        # while we were waiting, and the pool has dropped it.
+                        raise ConnectionNotAvailable()
                     stream = self._connect(request)
+                    if self._connect_failed:
+                        # A request that was waiting for this connection has been
+                        # cancelled in the meantime, and the pool has dropped it.
+                        with ShieldCancellation():
+                            stream.close()
+                        raise ConnectionNotAvailable()
 
                     ssl_object = stream.get_extra_info("ssl_object")
                     http2_negotiated = (
@@ -100,9 +106,10 @@ class HTTPConnection(ConnectionInterface):
                             stream=stream,
                             keepalive_expiry=self._keepalive_expiry,
                         )
-                except BaseException as exc:
-                    self._connect_failed = True
-                    raise exc
+        except BaseException as exc:
+            if self._connection is None:
+                self._connect_failed = True
+            raise exc
 
         return self._connection.handle_request(request)
 
